@@ -7,7 +7,8 @@ PROP = dict(
                 "and the hashes recomputed from the read-back values must equal the stored ones."),
     rule=("arbitrary headers with nil/non-nil optional fields, 0-12 (thorough 40) transactions of all 5 kinds x versions, receipts with events/messages/"
           "resources/revert reasons, state updates with every section populated or empty, Sierra and Cairo-0 classes; block numbers around CBOR width "
-          "boundaries; memory and Pebble. Non-trivial = mixed-kind block, empty block, or nil optional header field; distinct = SHA-256 of block ids and shapes."),
+          "boundaries; memory and Pebble; Sierra program / CASM bytecode sizes around every CBOR header width, 2^16, 2^17 and up to 300001 felts "
+          "with every limb width class of the felt codec (TestPropClassSizesRoundTrip). Non-trivial = mixed-kind block, empty block, or nil optional header field; distinct = SHA-256 of block ids and shapes."),
     assumptions=["encoding/json rendering is used as the canonical form for structural comparison", "fxamacker/cbor trusted"],
     runs=[dict(run="^Test(Prop|Known)")],
 )
